@@ -49,6 +49,19 @@ TEXTS = [
 ]
 SEARCH_SETTINGS = SETTINGS[:12] + [{"PREFER_DATES_FROM": "past"}, {"STRICT_PARSING": True}]
 BAD_LANG = [("xx", "12 May 2015"), ("zz", "yesterday")]
+# strings that are blank / only skipped words after translation (the parsers are entered with nothing to parse) and strings that
+# make a sub-parser fail half-way; each is followed, somewhere later in a history, by the numeric-date "victims" below
+DISTURBERS = [("fr", "le"), ("es", "de"), ("en", "on"), ("sv", "den"), ("ru", "в"), ("nl", "om"), ("fr", "le le"), ("fr", "à"),
+              ("de", "um"), ("pl", "o"), ("en", ""), ("en", "   "), ("fr", "32/13/2015"), ("sv", "99/99/9999 25:61"),
+              ("ja", "13月32日"), ("fr", "le 31 février 2015")]
+VICTIMS = [("tl", "01/02/2015"), ("tl", "2015/01/02 10:45"), ("en", "01/02/2015"), ("fr", "01/02/2015"), ("sv", "01/02/2015"),
+           ("ja", "01/02/2015"), ("de", "01.02.2015")]
+# zone-bearing strings whose table entries overlap (an abbreviation that is a prefix of an offset spelling, a bare offset
+# that is a suffix of a prefixed one): the zone found in one call must not depend on the zone found in the call before
+TZ_STRINGS = ["12/05/2015 10:30 UTC", "12/05/2015 10:30 UTC+5", "12/05/2015 10:30 GMT", "12/05/2015 10:30 GMT-0330",
+              "12/05/2015 10:30 +0530", "12/05/2015 10:30 UTC+0530", "12/05/2015 10:30 GMT+05:30", "12/05/2015 10:30 EST",
+              "12/05/2015 10:30 GMT-0500 (EST)", "12/05/2015 10:30 -05:00", "12/05/2015 10:30 utc", "12/05/2015 10:30 UTC-5",
+              "12/05/2015 10:30 CEST", "12/05/2015 10:30 GMT+0200 (CEST)", "12/05/2015 10:30 Z", "12/05/2015 10:30"]
 
 
 def build_pool(tier):
@@ -95,6 +108,15 @@ def build_pool(tier):
         for s in ("02/03/2015", "12 mai 2015", "3 mth ago", "yesterday"):
             P.append({"api": "ddp", "s": s, "lang": None, "langs": langs, "region": region, "si": 0, "nobase": False})
             P.append({"api": "ddp", "s": s, "lang": None, "langs": langs, "region": region, "si": 14, "nobase": False})
+    for l, s in DISTURBERS + VICTIMS:
+        for si in (0, 1, 14, 4):
+            P.append({"api": "parse", "s": s, "lang": l, "si": si, "nobase": False, "grp": "order"})
+            if si in (0, 14):
+                P.append({"api": "ddp", "s": s, "lang": l, "si": si, "nobase": False, "grp": "order"})
+    for s in TZ_STRINGS:
+        for l in ("en", None):
+            P.append({"api": "parse", "s": s, "lang": l, "si": 0, "nobase": False, "grp": "tz"})
+        P.append({"api": "ddp", "s": s, "lang": "en", "si": 22, "nobase": False, "grp": "tz"})
     for l, s in BAD_LANG:
         P.append({"api": "parse", "s": s, "lang": l, "si": 0, "nobase": False})
         P.append({"api": "ddp", "s": s, "lang": l, "si": 1, "nobase": False})
